@@ -1516,3 +1516,157 @@ Proof.
     apply Hrev, in_seq in Hi. lia.
   - intros Hi. apply Hincl, in_seq. lia.
 Qed.
+
+(* ================================================================== *)
+(* replaying the stored bit path through contract_nodes yields an ssa path OF the stored tree *)
+
+Lemma tree_of_ssa_app forest p1 p2 :
+  tree_of_ssa forest (p1 ++ p2) = tree_of_ssa (tree_of_ssa forest p1) p2.
+Proof.
+  revert forest. induction p1 as [|[i j] p1 IH]; intros forest; cbn [app tree_of_ssa]; [reflexivity|apply IH].
+Qed.
+
+Fixpoint replay_tm (bp : list (N * N)) (tm : list (N * nat)) (ssa : nat) : list (N * nat) :=
+  match bp with
+  | [] => tm
+  | (si, sj) :: bp' => replay_tm bp' ((N.lor si sj, ssa) :: tm) (S ssa)
+  end.
+
+Lemma replay_app bp1 : forall bp2 tm ssa,
+  replay_bitpath (bp1 ++ bp2) tm ssa =
+  replay_bitpath bp1 tm ssa ++ replay_bitpath bp2 (replay_tm bp1 tm ssa) (ssa + length bp1).
+Proof.
+  induction bp1 as [|[si sj] bp1 IH]; intros bp2 tm ssa; cbn [app replay_bitpath replay_tm length].
+  - rewrite Nat.add_0_r. reflexivity.
+  - rewrite IH. cbn [app]. replace (ssa + S (length bp1)) with (S ssa + length bp1) by lia. reflexivity.
+Qed.
+
+Lemma replay_tm_app bp1 : forall bp2 tm ssa,
+  replay_tm (bp1 ++ bp2) tm ssa = replay_tm bp2 (replay_tm bp1 tm ssa) (ssa + length bp1).
+Proof.
+  induction bp1 as [|[si sj] bp1 IH]; intros bp2 tm ssa; cbn [app replay_tm length].
+  - rewrite Nat.add_0_r. reflexivity.
+  - rewrite IH. replace (ssa + S (length bp1)) with (S ssa + length bp1) by lia. reflexivity.
+Qed.
+
+(* s is a non-empty subset of S *)
+Definition subm (s S : N) : Prop := s <> 0%N /\ N.land s S = s.
+
+Lemma subm_disjoint s q S1 S2 : subm s S1 -> subm q S2 -> N.land S1 S2 = 0%N -> s <> q.
+Proof.
+  intros [Hs Es] [Hq Eq_] Hd E. subst q. apply Hs.
+  rewrite <- Es. rewrite <- Eq_ at 1. rewrite <- N.land_assoc, (N.land_comm S2 S1), Hd. apply N.land_0_r.
+Qed.
+
+Lemma subm_refl S : S <> 0%N -> subm S S.
+Proof. intros H. split; [exact H | apply N.land_diag]. Qed.
+
+Lemma subm_lor_l s S1 S2 : subm s S1 -> subm s (N.lor S1 S2).
+Proof.
+  intros [H E]. split; [exact H|]. rewrite N.land_lor_distr_r, E.
+  apply N.bits_inj. intros k. rewrite N.lor_spec, N.land_spec. destruct (N.testbit s k); reflexivity.
+Qed.
+Lemma subm_lor_r s S1 S2 : subm s S2 -> subm s (N.lor S1 S2).
+Proof. rewrite N.lor_comm. apply subm_lor_l. Qed.
+
+Lemma mget_cons_ne q s v tm : s <> q -> mget q ((s, v) :: tm) = mget q tm.
+Proof. intros H. cbn [mget]. destruct (N.eqb_spec s q); [contradiction|reflexivity]. Qed.
+Lemma mget_cons_eq s v tm : mget s ((s, v) :: tm) = v.
+Proof. cbn [mget]. rewrite N.eqb_refl. reflexivity. Qed.
+
+Lemma post_sub_length t : length (post_sub t) = length (bitpath t).
+Proof.
+  induction t as [k|l IHl r IHr]; cbn [post_sub bitpath]; [reflexivity|].
+  rewrite !app_length, IHl, IHr. reflexivity.
+Qed.
+
+
+Lemma leaf_subm n t S : vtree n t S -> forall k, In k (leaves t) -> subm (bit k) S.
+Proof.
+  induction 1 as [i Hi|l r Sl Sr Hl IHl Hr IHr Hd]; intros k Hk; cbn [leaves] in Hk.
+  - destruct Hk as [<-|[]]. apply subm_refl, bit_neq_0.
+  - apply in_app_iff in Hk. destruct Hk as [Hk|Hk]; [apply subm_lor_l, IHl, Hk | apply subm_lor_r, IHr, Hk].
+Qed.
+
+Lemma nth_error_app_l {A} (l l' : list A) i x : nth_error l i = Some x -> nth_error (l ++ l') i = Some x.
+Proof.
+  intros H. rewrite nth_error_app1; [exact H|]. apply nth_error_Some. congruence.
+Qed.
+
+Lemma replay_tree n t S : vtree n t S ->
+  forall tm forest,
+  (forall k, In k (leaves t) -> nth_error forest (mget (bit k) tm) = Some (Leaf k)) ->
+  let tm' := replay_tm (bitpath t) tm (length forest) in
+  tree_of_ssa forest (replay_bitpath (bitpath t) tm (length forest)) = forest ++ post_sub t /\
+  nth_error (forest ++ post_sub t) (mget S tm') = Some t /\
+  (forall q, (forall s, subm s S -> s <> q) -> mget q tm' = mget q tm).
+Proof.
+  induction 1 as [i Hi|l r Sl Sr Hl IHl Hr IHr Hd]; intros tm forest Hleaf; cbv zeta.
+  - cbn [bitpath replay_bitpath replay_tm tree_of_ssa post_sub]. rewrite app_nil_r.
+    split; [reflexivity|]. split; [apply Hleaf; left; reflexivity | reflexivity].
+  - pose proof (vtree_mask _ _ _ Hl) as Ml. pose proof (vtree_mask _ _ _ Hr) as Mr.
+    pose proof (vtree_nonzero _ _ _ Hl) as Zl. pose proof (vtree_nonzero _ _ _ Hr) as Zr.
+    cbn [bitpath post_sub]. rewrite Ml, Mr.
+    destruct (IHl tm forest) as (E1 & N1 & U1).
+    { intros k Hk. apply Hleaf. cbn [leaves]. apply in_app_iff. auto. }
+    set (tm1 := replay_tm (bitpath l) tm (length forest)) in *.
+    set (forest1 := forest ++ post_sub l) in *.
+    assert (L1 : length forest1 = length forest + length (bitpath l)).
+    { unfold forest1. rewrite app_length, post_sub_length. reflexivity. }
+    destruct (IHr tm1 forest1) as (E2 & N2 & U2).
+    { intros k Hk. rewrite U1.
+      - apply nth_error_app_l. apply Hleaf. cbn [leaves]. apply in_app_iff. auto.
+      - intros s Hs. apply (subm_disjoint s (bit k) Sl Sr Hs (leaf_subm _ _ _ Hr k Hk) Hd). }
+    set (tm2 := replay_tm (bitpath r) tm1 (length forest1)) in *.
+    set (forest2 := forest1 ++ post_sub r) in *.
+    assert (L2 : length forest2 = length forest1 + length (bitpath r)).
+    { unfold forest2. rewrite app_length, post_sub_length. reflexivity. }
+    assert (Gl : nth_error forest2 (mget Sl tm2) = Some l).
+    { unfold tm2. rewrite U2.
+      - apply nth_error_app_l. exact N1.
+      - intros s Hs. apply (subm_disjoint s Sl Sr Sl Hs (subm_refl _ Zl)). rewrite N.land_comm. exact Hd. }
+    rewrite !replay_app, !replay_tm_app, !tree_of_ssa_app. rewrite E1. fold forest1. fold tm1.
+    rewrite <- L1. rewrite E2. fold tm2. fold forest2. rewrite <- L2.
+    cbn [replay_bitpath replay_tm tree_of_ssa].
+    rewrite (nth_error_nth _ _ (Leaf 0) Gl), (nth_error_nth _ _ (Leaf 0) N2).
+    assert (EF : forest2 ++ [Node l r] = forest ++ post_sub l ++ post_sub r ++ [Node l r]).
+    { unfold forest2, forest1. rewrite <- !app_assoc. reflexivity. }
+    rewrite <- EF. split; [reflexivity|]. split.
+    + rewrite mget_cons_eq. rewrite nth_error_app2 by lia. rewrite Nat.sub_diag. reflexivity.
+    + intros q Hq.
+      assert (Zlr : N.lor Sl Sr <> 0%N) by (intros H0; apply N.lor_eq_0_iff in H0; tauto).
+      rewrite mget_cons_ne by (apply Hq, subm_refl, Zlr).
+      unfold tm2. rewrite U2 by (intros s Hs; apply Hq, subm_lor_r, Hs).
+      apply U1. intros s Hs. apply Hq, subm_lor_l, Hs.
+Qed.
+
+Lemma mget_init k : forall a m, a <= k < a + m ->
+  mget (bit k) (combine (map bit (seq a m)) (seq a m)) = k.
+Proof.
+  intros a m. revert a. induction m as [|m IH]; intros a H; [lia|].
+  cbn [seq map combine mget]. destruct (N.eqb_spec (bit a) (bit k)) as [E|E].
+  - apply bit_inj, E.
+  - apply IH. assert (a <> k) by (intros ->; apply E; reflexivity). lia.
+Qed.
+
+Lemma nth_error_leaf_seq n k : k < n -> nth_error (map Leaf (seq 0 n)) k = Some (Leaf k).
+Proof.
+  intros H. rewrite (nth_error_nth' _ (Leaf 0)) by (rewrite map_length, seq_length; exact H).
+  rewrite (map_nth Leaf (seq 0 n) 0 k), seq_nth by exact H. reflexivity.
+Qed.
+
+(* the ssa path produced from the stored bit path of a tree over all n tensors is a path OF that tree *)
+Theorem replay_is_path_of_tree n t S : vtree n t S -> nleaves t = n ->
+  ssa_tree n (replay_bitpath (bitpath t) (combine (map bit (seq 0 n)) (seq 0 n)) n) = t.
+Proof.
+  intros Hv Hn. unfold ssa_tree.
+  assert (Hb : forall k, In k (leaves t) -> k < n).
+  { apply vtree_iff in Hv. apply Hv. }
+  destruct (replay_tree n t S Hv (combine (map bit (seq 0 n)) (seq 0 n)) (map Leaf (seq 0 n))) as (E & _ & _).
+  { intros k Hk. rewrite mget_init by (specialize (Hb k Hk); lia). apply nth_error_leaf_seq, Hb, Hk. }
+  rewrite map_length, seq_length in E. rewrite E.
+  destruct t as [k|l r].
+  - cbn [post_sub]. rewrite app_nil_r. cbn [nleaves] in Hn. subst n. cbn.
+    specialize (Hb k (or_introl eq_refl)). f_equal. lia.
+  - cbn [post_sub]. rewrite !app_assoc. apply last_last.
+Qed.
